@@ -27,6 +27,7 @@ class Cfg:
     leaf_cols: str = "abcd"
     max_rows_choices: tuple = (0, 1, 2, 3, 5, 8)
     shuffle_insert: bool = True
+    sort_then_slice_prob: float = 0.0
 
 
 class Gen:
@@ -198,6 +199,8 @@ class Gen:
                 new = self.unary(state, op)
             if new:
                 state = new
+                if op == "sort" and cfg.sort_then_slice_prob and rng.random() < cfg.sort_then_slice_prob:
+                    state = self.unary(state, "slice")
         if want_cols is not None and state[1] != frozenset(want_cols):
             state = ["proj", state[0], sorted(want_cols), None], frozenset(want_cols), state[2]
         return state
